@@ -27,6 +27,7 @@ def run(ctx):
     ctx.rule("R15.4", "one build per record per command line: dedupe keyed on the canonical identity (= R7.1)")
     ctx.rule("R15.5", "RedoPath/RedoPathBuf construction from unvalidated data is `unsafe`; validated constructors are the only safe ones")
     ctx.rule("R15.6", "Env::init exports the discovered base (REDO_BASE) on the not-inherited side so that children agree")
+    ctx.rule("R15.9", "state::realdirpath resolves symbolic links in the directory part on every path: no lexical shortcut, and where the directory does not exist yet the existing part of it is still canonicalised")
 
     by_name = {}
     for b in prog.bodies.values():
@@ -184,6 +185,102 @@ def run(ctx):
         sl, org, _ = backward_direct(ei, v, depth=150)
         ok = any(o[0] == "call" and call_matches(o[2], r"std::path::Path::(parent|ancestors|join|exists)|common_path::.*|std::fs::canonicalize|std::path::Path::canonicalize|std::env::current_dir") for o in org) or len(sl) > 3
         ctx.ob("R15.6", "Env::init|REDO_BASE-is-the-discovered-base", ok, where=ctx.where(ei, st[0]), detail="the exported value derives from the directory walk")
+    # ---- R15.10 (F-W): the directories that decide where the state directory goes are cleaned spellings
+    ctx.rule("R15.10", "Env::init: every target directory that enters the common-prefix computation of the project base has passed helpers::normpath (abs_path alone keeps `sub/../x`, whose prefix with the cwd is `sub`)")
+    if cp:
+        pushes = [i for i in eba.calls(r"alloc::vec::Vec::push") if eba.path([i], cp) is not None]
+        cwd_l = {ei.blocks[c]["term"]["dest"]["l"] for c in cd}
+        cwd_direct2 = taint(ei, seeds=cwd_l, mode="direct", through=re.compile(r"core::iter::sources::once::once|core::convert::AsRef::as_ref")) if cwd_l else set()
+        n = 0
+        joined_t = taint(ei, src_call=lambda t_: call_matches(t_, r"helpers::abs_path|std::path::Path::join"), mode="derived")
+        cleaned_t = taint(ei, src_call=lambda t_: call_matches(t_, r"helpers::normpath|std::path::Path::canonicalize|std::fs::canonicalize|state::realdirpath"), mode="derived")
+        for i in pushes:
+            a1 = op_local(ei.blocks[i]["term"]["args"][1])
+            if a1 is None or ei.locals[a1] not in ("std::path::PathBuf", "alloc::borrow::Cow<'_, std::path::Path>", "&std::path::Path"):
+                continue
+            if a1 in cwd_direct2 or any(x in cwd_direct2 for x in eba.ref_chain(a1)):
+                continue    # the cwd itself (already canonical: getcwd)
+            if not (a1 in joined_t or any(x in joined_t for x in eba.ref_chain(a1))):
+                continue    # not a target directory made absolute here
+            n += 1
+            cleaned = a1 in cleaned_t or any(x in cleaned_t for x in eba.ref_chain(a1))
+            ctx.ob("R15.10", "Env::init|target-dir#%d|cleaned-before-common-prefix" % n, cleaned, where=ctx.where(ei, i),
+                   detail="the target's directory is cleaned (normpath) before it is compared with the others and the cwd" if cleaned else
+                   "an uncleaned spelling enters the common prefix: `cd sub && redo ../x/a` in a project without .redo puts the state directory into sub/, where no other spelling of x/a finds it")
+        ctx.floor("R15.10", "target directories pushed for the common prefix in Env::init", n, 1)
+    realdirpath_rules(ctx, "R15.9")
+
+
+def realdirpath_rules(ctx, rid):
+    """R15.9: inside state::realdirpath (the function that makes one name out of every spelling of a directory):
+    (a) every path on which the name has a directory part passes a canonicalize() call - no lexical shortcut;
+    (b) where canonicalize() reports NotFound (the directory does not exist yet) the answer is still computed from a
+        canonicalize() of the part that does exist (F-V): otherwise the name of link/new/x changes the moment `new` is made."""
+    prog = ctx.prog
+    rd = prog.one(r"state::realdirpath")
+    rba = BA.of(rd)
+    canon = rba.calls(r"std::path::Path::canonicalize|std::fs::canonicalize")
+    ctx.floor(rid, "canonicalize calls in realdirpath", len(canon), 1)
+    if not canon:
+        return
+
+    def is_dot_path(l):
+        sl, org, _ = backward_direct(rd, l, depth=20)
+        for o in org:
+            if o[0] == "call" and call_matches(o[2], r"std::path::Path::new") and o[2]["args"]:
+                a = o[2]["args"][0]
+                if const_str(a) == ".":
+                    return True
+                la = op_local(a)
+                if la is not None:
+                    for x in [la] + list(rba.ref_chain(la)):
+                        d = rba.single_def(x)
+                        if d and d[0] == "stmt" and d[3]["k"] == "use" and const_str(d[3]["op"]) == ".":
+                            return True
+        return False
+    dot_edges = []
+    for (sw, t_t, f_t, cbb) in rba.switches_on_call(r".*PartialEq.*::(eq|ne)"):
+        t = rd.blocks[cbb]["term"]
+        if any(op_local(a) is not None and is_dot_path(op_local(a)) for a in t["args"]):
+            ne = any(q.endswith("::ne") for q in callee_paths(t))
+            dot_edges.append((sw, f_t if ne else t_t))
+    if not dot_edges:
+        from facts import AnchorError
+        raise AnchorError("%s: the test for 'no directory part' (comparison with Path::new(\".\")) in realdirpath not located" % rid)
+    pth = rba.path([0], rba.returns(), avoid=frozenset(canon), cut_edges=frozenset(dot_edges), incl=True)
+    ctx.ob(rid, "realdirpath|directory-part-always-canonicalised", pth is None, where=rd.span,
+           detail="every return for a name with a directory part lies behind a canonicalize() call" if pth is None else
+           "a name with a directory part can be returned without resolving symbolic links in it (%s): the same file reached through a symlinked directory gets a second record, lock and log" % rd.line(pth[-1]), witness=pth)
+    # (b) the NotFound sides
+    nf = []
+    for (sw, t_t, f_t, cbb) in rba.switches_on_call(r".*ErrorKind as core::cmp::PartialEq>::(eq|ne)|.*PartialEq.*::(eq|ne)"):
+        t = rd.blocks[cbb]["term"]
+        if not any("ErrorKind" in ty for ty in t.get("arg_tys", [])) and not any("ErrorKind" in q for q in callee_paths(t)):
+            continue
+        blk = rd.blocks[cbb]
+        if not any(s_["s"] == "assign" and s_["rv"]["k"] == "agg" and s_["rv"].get("variant") == "NotFound" for s_ in blk["stmts"]) and \
+           not any(s_["s"] == "assign" and s_["rv"]["k"] == "agg" and s_["rv"].get("variant") == "NotFound" for b_ in rd.blocks for s_ in b_["stmts"]):
+            continue
+        ne = any(q.endswith("::ne") for q in callee_paths(t))
+        nf.append((sw, f_t if ne else t_t))
+    for n, (sw, side) in enumerate(nf):
+        later = [c for c in canon if rba.path([side], [c], incl=True) is not None]
+        # the resolved path: the Ok payload of those calls (not the error, which may legitimately be returned as it is)
+        dests = {rd.blocks[c]["term"]["dest"]["l"] for c in later}
+        seeds = set()
+        for b_ in rd.blocks:
+            for s_ in b_["stmts"]:
+                if s_["s"] == "assign" and s_["rv"]["k"] == "use":
+                    pl = op_place(s_["rv"]["op"])
+                    if pl is not None and pl["l"] in dests and any(e == "as:Ok" for e in pl["p"]):
+                        seeds.add(s_["place"]["l"])
+        tn = taint(rd, seeds=seeds, mode="derived") if seeds else set()
+        ok_vals = [op_local(o) for b_ in rd.blocks for s_ in b_["stmts"] if s_["s"] == "assign" and s_["place"]["l"] == 0 and not s_["place"]["p"]
+                   and s_["rv"]["k"] == "agg" and s_["rv"].get("variant") == "Ok" for o in s_["rv"]["ops"]]
+        ok = bool(later) and any(l in tn for l in ok_vals if l is not None)
+        ctx.ob(rid, "realdirpath|NotFound#%d|existing-part-still-resolved" % n, ok, where=ctx.where(rd, sw),
+               detail="when the directory does not exist (yet), symbolic links in the part that exists are still resolved" if ok else
+               "when canonicalize() reports NotFound the directory part is only cleaned lexically: link/new/x is recorded under that spelling and becomes real/new/x - another record that finds the file existing and not generated - once the .do has created `new`")
 
 
 def _key_is_relpath(fn):
